@@ -25,9 +25,10 @@ Erase    == \E cmd \in EraseCmds   : Apply(cmd)
 Bg       == \E cmd \in BgCmds      : Apply(cmd)
 Task     == \E cmd \in TaskCmds    : Apply(cmd)
 Arm      == \E cmd \in ArmCmds     : Apply(cmd)
+Create   == \E cmd \in CreateCmds  : Apply(cmd)
 Quiesce  == Apply(QuiesceCmd)
 
-Next == Spawn \/ Start \/ PollC \/ Burst \/ Nest \/ Advance \/ HandleOp \/ Erase \/ Bg \/ Task \/ Arm \/ Quiesce
+Next == Spawn \/ Start \/ PollC \/ Burst \/ Nest \/ Advance \/ HandleOp \/ Erase \/ Bg \/ Task \/ Arm \/ Create \/ Quiesce
 Spec == Init /\ [][Next]_vars
 
 C01 == InvC01(mon)
